@@ -48,9 +48,33 @@ pub struct Case {
     /// instant of the trigger (ms) and distance of the later unrelated event (ms, >= 1)
     pub t_ms: u16,
     pub gap_ms: u16,
+    /// the trigger message is consumed by a processing element which performs the release in its `incoming`
+    /// hook (the module's handle_message is never called for it)
+    #[serde(default)]
+    pub via_element: bool,
 }
 
 pub struct C06;
+
+thread_local! {
+    /// the release action handed to the consuming processing element
+    static ELEMENT_RELEASE: std::cell::RefCell<Option<Release>> = const { std::cell::RefCell::new(None) };
+}
+
+struct Consumer;
+impl des::net::processing::ProcessingElement for Consumer {
+    fn incoming(&mut self, msg: Message) -> Option<Message> {
+        if msg.header().id == 1 {
+            net::log("trigger", 1, 0);
+            if let Some(r) = ELEMENT_RELEASE.with(|r| r.borrow_mut().take()) {
+                do_release(&r);
+            }
+            None
+        } else {
+            Some(msg)
+        }
+    }
+}
 
 #[derive(Clone)]
 enum Release {
@@ -120,6 +144,12 @@ impl W {
 }
 
 impl Module for W {
+    fn stack(&self, mut stack: des::net::processing::ProcessingStack) -> des::net::processing::ProcessingStack {
+        if self.case.via_element && !matches!(self.case.mode, Mode::SpawnBurst(_)) {
+            stack.append(Consumer);
+        }
+        stack
+    }
     fn at_sim_start(&mut self, _: usize) {
         let yields = self.case.yields;
         let after_wake = move |i: usize| async move {
@@ -269,6 +299,11 @@ impl Module for W {
                 self.release = Release::None;
             }
         }
+        // (tasks cannot be spawned from an element's hook: it runs outside the module's runtime context)
+        if self.case.via_element && !self.case.timer_trigger && !matches!(self.release, Release::Spawn(..)) {
+            let r = std::mem::replace(&mut self.release, Release::None);
+            ELEMENT_RELEASE.with(|slot| *slot.borrow_mut() = Some(r));
+        }
     }
     fn handle_message(&mut self, msg: Message) {
         if msg.header().id == 1 {
@@ -313,6 +348,7 @@ pub fn run_case(case: &Case, probe: bool) -> Result<(bool, Vec<&'static str>, bo
     net::log_clear();
     let mut sim = Sim::new(());
     let timer_trigger = case.timer_trigger && !(matches!(case.mode, Mode::SpawnBurst(_)) && case.local);
+    ELEMENT_RELEASE.with(|slot| *slot.borrow_mut() = None);
     sim.node(
         "w",
         W {
@@ -387,6 +423,9 @@ pub fn run_case(case: &Case, probe: bool) -> Result<(bool, Vec<&'static str>, bo
     if timer_trigger {
         labels.push("timer-trigger");
     }
+    if case.via_element && !timer_trigger && !matches!(case.mode, Mode::SpawnBurst(_)) {
+        labels.push("released-by-consuming-processing-element");
+    }
     let nt = n > 61 || case.yields >= 1;
     Ok((nt, labels, false))
 }
@@ -405,7 +444,7 @@ impl Prop for C06 {
     fn rule() -> String {
         "proptest: a module whose tasks are parked on Notify / mpsc / oneshot / Semaphore (fan-out of n tasks), on a oneshot chain or a JoinHandle \
          chain of depth d, on a bulk receive of k items in one task, or are spawned as a burst by the trigger, or all sleep until the same instant; n, d, k in 1..300 (quick) / 1..5000 \
-         (thorough) with 59..64 and 120..130 over-sampled; 0..3 yield_now() calls inside each task; trigger = handle_message or a timer-woken task \
+         (thorough) with 59..64 and 120..130 over-sampled; 0..3 yield_now() calls inside each task; trigger = handle_message, a consuming processing element (the handler is skipped) or a timer-woken task \
          at T; an unrelated later event at T2 > T; tokio::spawn or (from synchronous callbacks only) spawn_local. Oracle: every task's log entry \
          after its await carries exactly T, exactly one per task, run() is Ok (all joined), the later event is handled once. Non-trivial iff \
          more than 61 tasks/links are involved or a task yields. Excluded (known finding): spawn_local tasks with more than 61 runnable at once, a yield, a bulk receive > 128, or a \
@@ -434,8 +473,8 @@ impl Prop for C06 {
             2 => n.clone().prop_map(Mode::SpawnBurst),
             2 => n.prop_map(Mode::Sleepers),
         ];
-        (mode, prop_oneof![2 => Just(0u8), 1 => 1u8..4], any::<bool>(), proptest::bool::weighted(0.2), 0u16..50, 1u16..5000)
-            .prop_map(|(mode, yields, timer_trigger, local, t_ms, gap_ms)| Wrapped {
+        (mode, prop_oneof![2 => Just(0u8), 1 => 1u8..4], any::<bool>(), proptest::bool::weighted(0.2), 0u16..50, 1u16..5000, proptest::bool::weighted(0.3))
+            .prop_map(|(mode, yields, timer_trigger, local, t_ms, gap_ms, via_element)| Wrapped {
                 case: Case {
                     mode,
                     yields,
@@ -443,6 +482,7 @@ impl Prop for C06 {
                     local,
                     t_ms,
                     gap_ms,
+                    via_element,
                 },
                 probe_known: false,
             })
@@ -469,6 +509,7 @@ impl Prop for C06 {
                     local: true,
                     t_ms: 5,
                     gap_ms: 1000,
+                    via_element: false,
                 },
                 probe_known: true,
             },
